@@ -602,6 +602,7 @@ type SpecFunc struct {
 	Params []string
 	Body   Expr
 	Src    string
+	Pkg    string // defining package path ("" for spec files)
 }
 
 type GhostFunc struct {
@@ -753,7 +754,7 @@ func (cs *ContractSet) LoadContractText(text, path, pkgPath string, external boo
 			if err != nil {
 				return fail(err)
 			}
-			cs.Specs[name] = &SpecFunc{Name: name, Params: params, Body: e, Src: body}
+			cs.Specs[name] = &SpecFunc{Name: name, Params: params, Body: e, Src: body, Pkg: pkgPath}
 			cur = nil
 		case "ghost":
 			f := strings.Fields(rest)
